@@ -37,7 +37,7 @@ def features(b):
         k = e.get("ev", "") + ":" + str(e.get("stage", "")) + ("L" if e.get("late") else "") + ("T" if e.get("ttlb") else "") + (("nchange%d" % e["nchange"]) if e.get("nchange") else "")
         # the account context matters (multi-account interplay): which account is active, which is named
         k += "@" + active.get(e.get("w", ""), "") + (">" + e["src"] if e.get("src") else "") + (":" + e["tamper"] if e.get("tamper") else "")
-        if e.get("scls") and e.get("ev") in ("lock", "finalize", "cancel", "init_send", "process_invoice"):
+        if e.get("scls") and e.get("ev") in ("lock", "finalize", "cancel", "init_send", "process_invoice", "refresh", "scan"):
             k += "{" + e["scls"] + "}"      # the situation of the step's slate in the acting wallet
         if e.get("kcls"):
             k += "[names " + e["kcls"] + "]"      # the kind of record a request names
